@@ -5,7 +5,7 @@ the sensitivity table for DESIGN.md (development aid)."""
 import json, os, re, glob, sys
 root = '/verif/seeded'
 rows = []
-for name in sorted(os.listdir(root)):
+for name in sorted(os.listdir(root), key=lambda n: (n.split('-')[0], int(n.split('-')[1]) if '-' in n and n.split('-')[1].isdigit() else 0)):
     d = os.path.join(root, name)
     if not os.path.isfile(os.path.join(d, 'patch.diff')):
         continue
@@ -34,9 +34,9 @@ for name in sorted(os.listdir(root)):
         'summary': am.get('summary', ''),
         'needs_to_manifest': am.get('needs', ''),
         'files_touched': files,
-        'origin': 'proposed by a sub-agent that saw only the property text and a scratch worktree' + (' (second round: it was also told the summaries of the first three changes, to avoid repeats)' if int(name.split('-')[1]) > 3 else ''),
+        'origin': 'proposed by a sub-agent that saw only the property text and a scratch worktree' + (' (round %d: it was also told the summaries of the earlier changes for this property, to avoid repeats)' % (2 if int(name.split('-')[1]) <= 6 else 3 if int(name.split('-')[1]) <= 8 else 4) if int(name.split('-')[1]) > 3 else ''),
         'confirmed': {
-            'how': 'tools/confirm_mutant.sh in a scratch worktree under /tmp/mut: git apply; pinned test suite (default features); cargo build --features alpha,llvm-sys; `penne run` of every demo/*.pn with the pristine and the changed binary',
+            'how': 'tools/confirm_mutant.sh in a scratch worktree under /tmp: git apply; pinned test suite (default features); cargo build --features alpha,llvm-sys; `penne run` of every demo/*.pn with the pristine and the changed binary',
             'pinned_tests': '%s/%s' % (tests.group(1), tests.group(2)) if tests else None,
             'builds_with_alpha': '== alpha build exit 0' in confirm,
             'demo_inputs_behaving_differently': int(demos.group(1)) if demos else None,
@@ -61,7 +61,7 @@ for name in sorted(os.listdir(root)):
     own = name.split('-')[0]
     note = first[:100].replace('|', '/')
     if caught and own not in caught:
-        note = 'not by %s itself (the change is in the command line tool); ' % own + note
+        note = ('not by %s itself (the change is in the command line tool); ' if name in ('C03-4', 'C03-7', 'C13-4') else 'not by %s itself (it shows only when several modules go through one compiler, which is C12\'s subject); ') % own + note
     rows.append('| %s | %s | %s | %s | %s |' % (name, ', '.join(files).replace('src/', ''), summ[:170], verdict, note))
 print('| change | file | what it does | caught by (quick tier) | first signature / note |')
 print('|---|---|---|---|---|')
